@@ -1,5 +1,5 @@
 CONSTANTS
-  N = 6
+  N = 5
   MaxTrail = 8
   RewritesInvalid = FALSE
   EmitCases = TRUE
